@@ -602,7 +602,7 @@ def predict_handler(scen, step):
         generator ended (racy: taken from the trace); an exception of a close leaves the later ones open;
       an exception while the savers are being created (get_components) leaves the ones already created open."""
     fe = first_exc(step)
-    if fe is None:
+    if fe is None or fe["func"] == PROBE_FUNC:      # the probe's OSError never reaches a processor (frontend skipped)
         return {}
     gf = fe["g"]
     tr = step["trace"]
@@ -677,6 +677,8 @@ def attempt_spec(scen, key, step, base_ops_model, show, hspec=None):
     fr = fired(step)
     died = step["outcome"] == "died"
     fe = first_exc(step)
+    if fe is not None and fe["func"] == PROBE_FUNC:
+        fe = None
     pred = predict_handler(scen, step)
     parts, es, extra, abandoned = [], 0, [], 0
     gf = fe["g"] if fe is not None else None
@@ -701,7 +703,7 @@ def attempt_spec(scen, key, step, base_ops_model, show, hspec=None):
                 # the pool task failed before it came to this saver: its write of that chunk never started
                 k = model_index(base_ops_model, scen["variant"], fe["role"], 0)
                 if k is not None:
-                    parts.append(f"exc@{k}")
+                    parts.append(f"sk@{k}")
             if cls == "handled":
                 parts.append(f"ab@{close_start}")
             elif cls == "open" and pred.get(key) == "abandoned":
@@ -721,7 +723,7 @@ def attempt_spec(scen, key, step, base_ops_model, show, hspec=None):
         if scen["forked"] and fe["role"].startswith("W") and not mine:
             order = saver_order(step["trace"])
             if fe["key"] in order and key in order[order.index(fe["key"]):]:
-                parts.append(f"exc@{n_before}")         # the pool task never came to this saver's write of that chunk
+                parts.append(f"sk@{n_before}")          # the pool task never came to this saver's write of that chunk
         if mine:
             k1 = obs.index(fe)
             tail = ops[k1 + 1:]
@@ -792,9 +794,9 @@ def real_result(step, key):
     return oc.split(":")[0]
 
 
-def impl_line(scen, key, steps, shows, took):
+def impl_line(scens, key, steps, shows, took):
     parts = []
-    for step, show, tk in zip(steps, shows, took):
+    for scen, step, show, tk in zip(scens, steps, shows, took):
         if not tk:
             continue
         a = step["after"][key]
@@ -813,10 +815,19 @@ def impl_line(scen, key, steps, shows, took):
 _BASE_OPS = {}
 
 
-def model_base_ops(driver, p, key, prior_tokens):
+def eff_scen(scen, step):
+    """the protocol variant an attempt really runs: plugins (and their savers) are only inlined when at least two of
+    them have to be computed — when the first data type is already stored, the rest is saved by an ordinary
+    save_from on the thread pool (executor variant, operations interleave)"""
+    if scen["forked"] and step.get("before") is not None and step["before"][scen["keys"][0]]["find"] == "ok":
+        return dict(scen, forked=False, variant="exe", det=False)
+    return scen
+
+
+def model_base_ops(driver, p, scen, key, prior_tokens):
     """the model's op list of a fault-free attempt after the given earlier attempts (thread-pool scenarios: the
     address of a fault is translated into an index of the model's eager schedule)"""
-    line = "c04.run " + p["chunks"][key] + " " + " ".join(prior_tokens + [token(p["scen"], show="o")])
+    line = "c04.run " + p["chunks"][key] + " " + " ".join(prior_tokens + [token(scen, show="o")])
     if line not in _BASE_OPS:
         out = driver.run([line])[0]
         ops = out.split(" ; ")[-1].split(" ops=")[1]
@@ -835,25 +846,27 @@ def build_rows(case, res, driver):
         pre_tokens = []
         for ft, outcome, tr in p["pre"]:
             st0 = dict(fault=ft, faults=[ft], outcome=outcome, trace=tr, before=None)
-            base0 = model_base_ops(driver, p, key, pre_tokens) if not scen["det"] else None
+            base0 = model_base_ops(driver, p, scen, key, pre_tokens) if not scen["det"] else None
             tok = attempt_spec(scen, key, st0, base0, "")
             if tok is not None:
                 pre_tokens.append(tok)
-        tokens, shows, took = [], [], []
+        tokens, shows, took, escens = [], [], [], []
         for si, step in enumerate(steps):
             ft = step["fault"]
+            es = eff_scen(scen, step)
+            escens.append(es)
             here = ft is not None and any(f["key"] == key and f["role"] != "R" for f in step["faults"])
             if ft is None:
-                show = "rlo" if scen["det"] else "r"
+                show = "rlo" if es["det"] else "r"
             else:
-                show = ("r" if here else "") + ("ol" if scen["det"] else "")
-            base_model = model_base_ops(driver, p, key, pre_tokens + tokens) if not scen["det"] else None
-            tok = attempt_spec(scen, key, step, base_model, show, hspec=case.get("hspec") if si == 0 else None)
+                show = ("r" if here else "") + ("ol" if es["det"] else "")
+            base_model = model_base_ops(driver, p, es, key, pre_tokens + tokens) if not es["det"] else None
+            tok = attempt_spec(es, key, step, base_model, show, hspec=case.get("hspec") if si == 0 else None)
             took.append(tok is not None)
             shows.append(show)
             if tok is not None:
                 tokens.append(tok)
-        impl = impl_line(scen, key, steps, shows, took)
+        impl = impl_line(escens, key, steps, shows, took)
         op = ("c04.run " + p["chunks"][key] + " " + " ".join(pre_tokens + tokens)) if tokens else None
         if op is not None and "?|" in op:
             # undecided in-flight operation: the model is asked for the death before it and after it
